@@ -677,6 +677,17 @@ static char *read_file(char *path) {
     fwrite(buf2, 1, n, out);
   }
 
+  // fread returns 0 at the end of the file and also on a read error
+  // (e.g. if `path` is a directory).
+  if (ferror(fp)) {
+    int err = errno;
+    if (fp != stdin)
+      fclose(fp);
+    fclose(out);
+    errno = err;
+    return NULL;
+  }
+
   if (fp != stdin)
     fclose(fp);
 
